@@ -69,7 +69,7 @@ EV_PUSH = "final(self).events@ == old(self).events@.push({e})"
 KEEP = ("final(self).input == old(self).input && final(self).fuel == old(self).fuel && final(self).stuck_reported == old(self).stuck_reported "
         "&& final(self).diagnostics == old(self).diagnostics")
 KEEP_P = KEEP.replace("self", "p")
-WF_PUSH = ("proof { lemma_count_adv_push(old(self).events@, self.events@.last()); assert forall|i: int| 0 <= i < self.events@.len() implies "
+WF_PUSH = ("proof { lemma_pd_push0(old(self).events@, self.events@.last()); lemma_count_adv_push(old(self).events@, self.events@.last()); assert forall|i: int| 0 <= i < self.events@.len() implies "
            "#[trigger] fp_ok(self.events@, i) by { if i < old(self).events@.len() { assert(fp_ok(old(self).events@, i)); } } }")
 
 REVEAL = ("@entry", "", "proof { reveal(Parser::wf); reveal(at_eof); reveal(mu); }")
@@ -107,41 +107,41 @@ PCORE_FNS_RAW = [
        contract=f"""requires old(self).wf(),
         ensures final(self).wf(), {FRAME}, {KEEP},
             {EV_PUSH.format(e="Event::Open { kind: MySyntaxKind::TombStone, forward_parent: None }")},
-            r.index == old(self).events.len(), marker_ok(final(self).events@, r.index),
-            events_extend(old(self).events@, final(self).events@), {MU_SAME}""",
+            r.index == old(self).events.len(), marker_ok_o(final(self).events@, r.index),
+            events_extend(old(self).events@, final(self).events@, -1), {MU_SAME}""",
        ghost=[("MarkerOpened::new(", "line-before", WF_PUSH)]),
     Fn(file=P, name="close", container="Parser", as_method_of=PI, ret="r",
        obligation="close rewrites exactly the marker's Open event, appends Close; index in range (no panic)",
-       contract=f"""requires old(self).wf(), marker_ok(old(self).events@, m.index),
+       contract=f"""requires old(self).wf(), marker_ok_o(old(self).events@, m.index), kind != MySyntaxKind::TombStone,
         ensures final(self).wf(), {FRAME}, {KEEP},
             final(self).events@ == old(self).events@.update(m.index as int, Event::Open {{ kind, forward_parent: None }}).push(Event::Close),
             r.index == m.index, marker_ok(final(self).events@, r.index),
-            events_extend(old(self).events@, final(self).events@), {MU_SAME}""",
+            events_extend(old(self).events@, final(self).events@, m.index as int), {MU_SAME}""",
        ghost=[("MarkerClosed { index", "line-before", "proof { lemma_close_wf(old(self).events@, m.index as int, kind); }")]),
     Fn(file=P, name="completed", container="MarkerOpened", ret="r",
        obligation="completed: the assert!(event is Open) and the index never fail given a live marker; same effect as close",
-       contract=f"""requires old(p).wf(), marker_ok(old(p).events@, self.index),
+       contract=f"""requires old(p).wf(), marker_ok_o(old(p).events@, self.index), kind != MySyntaxKind::TombStone,
         ensures final(p).wf(), final(p).same_input(old(p)), {KEEP_P},
             final(p).events@ == old(p).events@.update(self.index as int, Event::Open {{ kind, forward_parent: None }}).push(Event::Close),
             r.index == self.index, marker_ok(final(p).events@, r.index),
-            events_extend(old(p).events@, final(p).events@), {MU_SAME_P}""",
+            events_extend(old(p).events@, final(p).events@, self.index as int), {MU_SAME_P}""",
        ghost=[("MarkerClosed { index", "line-before", "proof { lemma_close_wf(old(p).events@, self.index as int, kind); }")]),
     Fn(file=P, name="precede", container="MarkerClosed", ret="r",
        obligation="precede: unreachable!() is unreachable given a live marker; sets a forward link to the fresh Open (>= 1, in range)",
        contract=f"""requires old(p).wf(), marker_ok(old(p).events@, self.index),
         ensures final(p).wf(), final(p).same_input(old(p)), {KEEP_P},
             final(p).events@.len() == old(p).events@.len() + 1,
-            r.index == old(p).events.len(), marker_ok(final(p).events@, r.index), marker_ok(final(p).events@, self.index),
+            r.index == old(p).events.len(), marker_ok_o(final(p).events@, r.index), marker_ok(final(p).events@, self.index),
             final(p).events@[r.index as int] == (Event::Open {{ kind: MySyntaxKind::TombStone, forward_parent: None }}),
             final(p).events@[self.index as int] == (Event::Open {{ kind: old(p).events@[self.index as int]->kind, forward_parent: Some((old(p).events.len() - self.index) as usize) }}),
             forall|i: int| 0 <= i < old(p).events@.len() && i != self.index ==> final(p).events@[i] == old(p).events@[i],
-            events_extend(old(p).events@, final(p).events@), {MU_SAME_P}""",
+            events_extend(old(p).events@, final(p).events@, -1), {MU_SAME_P}""",
        ghost=[("        m\n", "before", "proof { lemma_precede_wf(old(p).events@, p.events@, self.index as int); }")]),
     Fn(file=P, name="advance", container="Parser", as_method_of=PI,
        obligation="advance resets fuel, consumes exactly one non-trivia token if any, records one Advance; accounting invariant kept; measure decreases unless at end of input",
        contract=f"""requires old(self).wf(),
         ensures final(self).wf(), {FRAME}, final(self).fuel == 256, !final(self).stuck_reported, final(self).diagnostics == old(self).diagnostics,
-            {EV_PUSH.format(e="Event::Advance")}, events_extend(old(self).events@, final(self).events@),
+            {EV_PUSH.format(e="Event::Advance")}, events_extend(old(self).events@, final(self).events@, -1),
             ({{ let c = skip_trivia({OLDC});
                final(self).input.cursor == if c < old(self).input.tokens.len() {{ c + 1 }} else {{ c }} }}),
             0 <= mu(*final(self)) <= mu(*old(self)), !at_eof(*old(self)) ==> mu(*final(self)) < mu(*old(self)),
@@ -151,7 +151,7 @@ PCORE_FNS_RAW = [
               ("self.events.push(Event::Advance)", "line-after", WF_PUSH + "\nproof { lemma_mu_advance(p0, *self); }")]),
     Fn(file=P, name="eat", container="Parser", as_method_of=PI, ret="r",
        contract=f"""requires old(self).wf(),
-        ensures final(self).wf(), {FRAME}, events_extend(old(self).events@, final(self).events@),
+        ensures final(self).wf(), {FRAME}, events_extend(old(self).events@, final(self).events@, -1),
             !r ==> final(self).events == old(self).events,
             r ==> final(self).events@ == old(self).events@.push(Event::Advance) && final(self).fuel == 256,
             0 <= mu(*final(self)) <= mu(*old(self)),
@@ -162,14 +162,14 @@ PCORE_FNS_RAW = [
        rewrites=[("msg.to_string()", "rt_string(msg)")],
        contract=f"""requires old(self).wf(),
         ensures final(self).wf(), {FRAME}, {KEEP}, final(self).events@.len() == old(self).events@.len() + 1,
-            final(self).events@.last() is Error, events_extend(old(self).events@, final(self).events@),
+            final(self).events@.last() is Error, events_extend(old(self).events@, final(self).events@, -1),
             forall|i: int| 0 <= i < old(self).events@.len() ==> final(self).events@[i] == old(self).events@[i], {MU_SAME}""",
        ghost=[("self.events.push(Event::Error(", "line-after", "proof { lemma_push_nonadv_wf(old(self).events@, self.events@.last()); }")]),
     Fn(file=P, name="advance_with_error", container="Parser", as_method_of=PI,
        rewrites=[("error.to_string()", "rt_string(error)")],
        obligation="advance_with_error wraps exactly one Advance in an ErrorTree node: Open, Error, Advance, Close; makes progress unless at end of input",
        contract=f"""requires old(self).wf(),
-        ensures final(self).wf(), {FRAME}, final(self).fuel == 256, events_extend(old(self).events@, final(self).events@),
+        ensures final(self).wf(), {FRAME}, final(self).fuel == 256, events_extend(old(self).events@, final(self).events@, -1),
             final(self).events@.len() == old(self).events@.len() + 4,
             forall|i: int| 0 <= i < old(self).events@.len() ==> final(self).events@[i] == old(self).events@[i],
             final(self).events@[old(self).events@.len() as int] == (Event::Open {{ kind: MySyntaxKind::ErrorTree, forward_parent: None }}),
@@ -185,7 +185,7 @@ PCORE_FNS_RAW = [
        rewrites=[("self.advance_with_error(&err_msg);", "self.advance_with_error(err_msg.as_str());")],
        obligation="expect consumes at most one token and always records either an Advance or an Error event; never increases the measure",
        contract=f"""requires old(self).wf(),
-        ensures final(self).wf(), {FRAME}, events_extend(old(self).events@, final(self).events@),
+        ensures final(self).wf(), {FRAME}, events_extend(old(self).events@, final(self).events@, -1),
             final(self).events@.len() > old(self).events@.len(),
             forall|i: int| 0 <= i < old(self).events@.len() ==> final(self).events@[i] == old(self).events@[i],
             0 <= mu(*final(self)) <= mu(*old(self)),
@@ -210,10 +210,12 @@ pub proof fn lemma_nth_eof(ts: Seq<Token>, c: int, n: int)
 }
 
 pub proof fn lemma_push_nonadv_wf(evs: Seq<Event>, e: Event)
-    requires events_wf(evs), !(e is Advance), !(e is Open),
+    requires events_wf(evs), !(e is Advance), !(e is Open), !(e is Close),
     ensures events_wf(evs.push(e)), count_adv(evs.push(e), evs.len() as int + 1) == count_adv(evs, evs.len() as int),
-            events_extend(evs, evs.push(e)),
+            events_extend(evs, evs.push(e), -1),
+            pd_ok(evs) ==> pd_ok(evs.push(e)) && pd(evs.push(e), evs.len() as int + 1) == pd(evs, evs.len() as int),
 {
+    if pd_ok(evs) { lemma_pd_push0(evs, e); }
     lemma_count_adv_push(evs, e);
     assert forall|i: int| 0 <= i < evs.push(e).len() implies #[trigger] fp_ok(evs.push(e), i) by {
         if i < evs.len() { assert(fp_ok(evs, i)); }
@@ -221,10 +223,12 @@ pub proof fn lemma_push_nonadv_wf(evs: Seq<Event>, e: Event)
 }
 
 pub proof fn lemma_close_wf(evs: Seq<Event>, idx: int, kind: MySyntaxKind)
-    requires events_wf(evs), 0 <= idx < evs.len(), evs[idx] is Open,
+    requires events_wf(evs), 0 <= idx < evs.len(), is_tomb(evs[idx]), kind != MySyntaxKind::TombStone, pd_ok(evs),
     ensures ({ let n = evs.update(idx, Event::Open { kind, forward_parent: None }).push(Event::Close);
-               events_wf(n) && count_adv(n, n.len() as int) == count_adv(evs, evs.len() as int) && events_extend(evs, n) }),
+               events_wf(n) && count_adv(n, n.len() as int) == count_adv(evs, evs.len() as int) && events_extend(evs, n, idx)
+               && pd_ok(n) && pd(n, n.len() as int) == pd(evs, evs.len() as int) }),
 {
+    lemma_pd_close(evs, idx, kind);
     let m = evs.update(idx, Event::Open { kind, forward_parent: None });
     let n = m.push(Event::Close);
     assert forall|i: int| 0 <= i < n.len() implies #[trigger] fp_ok(n, i) by {
@@ -235,13 +239,19 @@ pub proof fn lemma_close_wf(evs: Seq<Event>, idx: int, kind: MySyntaxKind)
 }
 
 pub proof fn lemma_precede_wf(evs: Seq<Event>, n: Seq<Event>, idx: int)
-    requires events_wf(evs), 0 <= idx < evs.len(), evs[idx] is Open, n.len() == evs.len() + 1,
+    requires events_wf(evs), 0 <= idx < evs.len(), nt_open(evs[idx]), n.len() == evs.len() + 1,
         n[evs.len() as int] == (Event::Open { kind: MySyntaxKind::TombStone, forward_parent: None }),
         n[idx] == (Event::Open { kind: evs[idx]->kind, forward_parent: Some((evs.len() - idx) as usize) }),
         evs.len() <= usize::MAX,
         forall|i: int| 0 <= i < evs.len() && i != idx ==> n[i] == evs[i],
-    ensures events_wf(n), count_adv(n, n.len() as int) == count_adv(evs, evs.len() as int), events_extend(evs, n),
+        pd_ok(evs),
+    ensures events_wf(n), count_adv(n, n.len() as int) == count_adv(evs, evs.len() as int), events_extend(evs, n, -1),
+        pd_ok(n), pd(n, n.len() as int) == pd(evs, evs.len() as int),
 {
+    let e1 = evs.push(Event::Open { kind: MySyntaxKind::TombStone, forward_parent: None });
+    lemma_pd_push0(evs, Event::Open { kind: MySyntaxKind::TombStone, forward_parent: None });
+    assert forall|i: int| 0 <= i < e1.len() implies delta(#[trigger] e1[i]) == delta(n[i]) by { }
+    lemma_pd_same(e1, n);
     assert forall|i: int| 0 <= i < n.len() implies #[trigger] fp_ok(n, i) by {
         if i < evs.len() && i != idx { assert(fp_ok(evs, i)); }
     }
